@@ -705,6 +705,93 @@ async fn proxy_pending_family(cli: &Cli, report: &mut Report) {
     }
 }
 
+/// A flood of connects across the shutdown request: the accept queue is never empty, so a listener
+/// that only looks at the stop signal when it has nothing to accept keeps serving newcomers.
+async fn flood_family(cli: &Cli, report: &mut Report, late: &LateLog) {
+    use tokio::io::{AsyncReadExt, AsyncWriteExt};
+    let rounds = cli.scaled(if cli.tier == Tier::Thorough { 12 } else { 3 });
+    for round in 0..rounds {
+        let direct = start_direct(DirectSpec { timeout: Duration::from_secs(3), ..Default::default() }).await;
+        let addr = direct.addr;
+        let mut hello = scripts::handshake(1, "flood.example.org", 25565, 770).frame();
+        hello.extend(Pkt::StatusRequest.frame());
+        let stop_flood = Arc::new(std::sync::atomic::AtomicBool::new(false));
+        let mut tasks = vec![];
+        for _ in 0..24 {
+            let hello = hello.clone();
+            let stop_flood = stop_flood.clone();
+            tasks.push(tokio::spawn(async move {
+                // (connect started, got a byte)
+                let mut log: Vec<(Instant, bool)> = vec![];
+                while !stop_flood.load(std::sync::atomic::Ordering::Relaxed) {
+                    let started = Instant::now();
+                    let served = async {
+                        let mut s = tokio::net::TcpStream::connect(addr).await.ok()?;
+                        s.write_all(&hello).await.ok()?;
+                        let mut b = [0u8; 1];
+                        match tokio::time::timeout(Duration::from_millis(250), s.read(&mut b)).await {
+                            Ok(Ok(n)) if n > 0 => Some(true),
+                            _ => Some(false),
+                        }
+                    }
+                    .await
+                    .unwrap_or(false);
+                    log.push((started, served));
+                    if !served {
+                        // refused connects return at once: do not spin
+                        tokio::time::sleep(Duration::from_millis(1)).await;
+                    }
+                }
+                log
+            }));
+        }
+        tokio::time::sleep(Duration::from_millis(150 + 40 * round)).await;
+        let stop = direct.stop.clone();
+        let cancelled = tokio::task::spawn_blocking(move || {
+            stop.cancel();
+            Instant::now()
+        })
+        .await
+        .unwrap_or_else(|_| Instant::now());
+        tokio::time::sleep(Duration::from_millis(350)).await;
+        stop_flood.store(true, std::sync::atomic::Ordering::Relaxed);
+        let mut before = 0u64;
+        let mut racing = 0u64;
+        let mut after = 0u64;
+        let mut served_after: Vec<f64> = vec![];
+        for t in tasks {
+            for (started, served) in t.await.unwrap_or_default() {
+                if started < cancelled {
+                    before += 1;
+                } else if started.duration_since(cancelled) < GRACE {
+                    racing += 1;
+                } else {
+                    after += 1;
+                    if served {
+                        served_after.push(started.duration_since(cancelled).as_secs_f64() * 1000.0);
+                    }
+                }
+            }
+        }
+        report.eval(Some(&format!("flood/{round}")));
+        report.count("flood: connects started before the shutdown request", before);
+        report.count("flood: connects racing the request (< 50 ms, not judged)", racing);
+        report.count("flood: connects started ≥ 50 ms after the request", after);
+        let detail = json!({"round": round, "connects_before": before, "racing": racing, "after": after, "served_after_started_ms_after_cancel": served_after});
+        if round == 0 {
+            report.sample(json!({"case": "flood", "observed": detail}));
+        }
+        if !served_after.is_empty() {
+            if late.worst() > Duration::from_millis(25) {
+                report.inconclusive(&format!("flood round {round}: harness lateness {:?}, verdict void", late.worst()));
+            } else {
+                report.violation("a-served-after-shutdown/flood", &format!("{} connections started ≥ 50 ms after the shutdown request were served while connects kept streaming in", served_after.len()), detail);
+            }
+        }
+        let _ = direct.wait_returned(Duration::from_secs(8)).await;
+    }
+}
+
 pub async fn run_prop(cli: &Cli) -> i32 {
     let mut report = Report::new(
         cli,
@@ -719,6 +806,8 @@ pub async fn run_prop(cli: &Cli) -> i32 {
     run(cli, &mut report).await;
     if cli.replay.is_none() {
         proxy_pending_family(cli, &mut report).await;
+        let late = LateLog::start(Duration::from_millis(5));
+        flood_family(cli, &mut report, &late).await;
     }
     report.finish()
 }
